@@ -70,6 +70,83 @@ Definition w_step_d (p : wstate * wstate) (o : wop) : wstate * wstate :=
 Definition w_run_d (meta : option bytes) (ops : list wop) : wstate * wstate :=
   fold_left w_step_d ops (w_create meta, w_create meta).
 
+(* ------------------------------------------------------------------ sessions: Close, then Open(snapshot) + ReadAll for append *)
+
+(* ReadAll sets w.enti to the index of every entry record it decodes (also of entries at or
+   below the start snapshot, which it does not return) *)
+Fixpoint enti_of_records (rs : list wrec) (acc : N) : N :=
+  match rs with
+  | [] => acc
+  | r :: t =>
+    enti_of_records t
+      (if r_type r =? entryType then
+         match entry_unmarshal (data_of r) with POk e => e_index e | PErr _ => acc end
+       else acc)
+  end.
+
+Fixpoint last_meta (rs : list wrec) (acc : option bytes) : option bytes :=
+  match rs with
+  | [] => acc
+  | r :: t => last_meta t (if r_type r =? metadataType then r_data r else acc)
+  end.
+
+(* the writer after Close; Open(snap{si,st}); ReadAll: same files, same digest, the tail ready for
+   append at the end of its data; enti from the records of the SELECTED segments; w.state is NOT
+   restored by ReadAll (it stays the zero value until the next saveState); None when the open or
+   the read fails *)
+Definition w_reopen (segsize : N) (w : wstate) (si st : N) : option wstate :=
+  match select_files (w_files segsize w) si with
+  | None => None
+  | Some sel =>
+    match decode_files sel 0 with
+    | (rs, FEnd, _, _) =>
+      match interp_all si st rs_init rs with
+      | SOk _ =>
+        Some (mkws (w_closed w) (w_seq w) (w_idx w) (w_cur w) (w_crc w)
+                   (enti_of_records rs 0) (mkhs 0 0 0) (last_meta rs None))
+      | SErr _ => None
+      end
+    | _ => None
+    end
+  end.
+
+Inductive sop := SOp (o : wop) | SReopen (si st : N).
+
+Definition s_step (segsize : N) (p : wstate * wstate) (o : sop) : wstate * wstate :=
+  match o with
+  | SOp o' => w_step_d p o'
+  | SReopen si st =>
+    match w_reopen segsize (fst p) si st with
+    | Some w' => (w', w')
+    | None => p
+    end
+  end.
+
+(* (current, durable) after a multi-session history *)
+Definition s_run_d (segsize : N) (meta : option bytes) (ops : list sop) : wstate * wstate :=
+  fold_left (s_step segsize) ops (w_create meta, w_create meta).
+
+Fixpoint sops_wops (ops : list sop) : list wop :=
+  match ops with
+  | [] => []
+  | SOp o :: t => o :: sops_wops t
+  | SReopen _ _ :: t => sops_wops t
+  end.
+
+(* a read that starts from a recorded snapshot (index si): err = nil and exactly the entries of
+   the specification above si — every segment that still holds such an entry must have been
+   selected, which is what the segment names (<seq>-<first index>) are for *)
+Definition spec_read_at_ok (ops : list wop) (si : N) (r : rares) : bool :=
+  match spec_run ops with
+  | None => true
+  | Some (log, _) =>
+    match r with
+    | RAOk _ _ ents _ =>
+      ents_eqb ents (if N.of_nat (length log) <=? si then [] else skipn (N.to_nat si) log)
+    | RAErr _ => false
+    end
+  end.
+
 (* ------------------------------------------------------------------ predicates on a process-kill image *)
 
 (* what ReadAll returned on the image is what the completed saves define: exactly their entry
